@@ -49,9 +49,17 @@ def build(sh, normalize_kv=None, span_func=None, cls=None, evaluator=None, share
 
 
 def project(o):
-    """geomdl object -> float `def` read from the private attributes (no getter is called, caches untouched)."""
-    return dict(deg=list(o._degree), kv=[list(U) for U in o._knot_vector], size=list(o._control_points_size),
-                rat=bool(o._rational), P=[list(p) for p in o._control_points])
+    """geomdl object -> float `def` read from the private attributes (no getter is called, caches untouched).
+    Should a tree store its definition under other private names, the public getters are used instead."""
+    try:
+        return dict(deg=list(o._degree), kv=[list(U) for U in o._knot_vector], size=list(o._control_points_size),
+                    rat=bool(o._rational), P=[list(p) for p in o._control_points])
+    except AttributeError:
+        pd = o.pdimension
+        deg = [o.degree] if pd == 1 else list(o.degree)
+        kv = [list(o.knotvector)] if pd == 1 else [list(U) for U in o.knotvector]
+        size = [o.ctrlpts_size] if pd == 1 else [getattr(o, "ctrlpts_size_" + d) for d in "uvw"[:pd]]
+        return dict(deg=deg, kv=kv, size=size, rat=bool(o.rational), P=[list(p) for p in (o.ctrlptsw if o.rational else o.ctrlpts)])
 
 
 def project_snapped(o, D=10000):
